@@ -1,9 +1,17 @@
 package value
 
-var SetMixin *Mixin // ::Std::Set
+var ImmutableSetMixin *Mixin // ::Std::ImmutableSet
+var SetMixin *Mixin          // ::Std::Set
 
 func initSet() {
+	ImmutableSetMixin = NewMixin()
+	ImmutableSetMixin.IncludeMixin(ImmutableCollectionBaseMixin)
+	StdModule.AddConstantString("ImmutableSet", Ref(ImmutableSetMixin))
+	RegisterNativeMixin("Std::ImmutableSet", "value.ImmutableSetMixin")
+
 	SetMixin = NewMixin()
+	SetMixin.IncludeMixin(ImmutableSetMixin)
+	SetMixin.IncludeMixin(CollectionBaseMixin)
 	StdModule.AddConstantString("Set", Ref(SetMixin))
 	RegisterNativeMixin("Std::Set", "value.SetMixin")
 }
